@@ -276,6 +276,35 @@ def run(rep, prog, tier):
             rep.ob('R-SPACE', 'extrap_func[extrap_log=%s] ratio %s' % (world_log, ast.unparse(e)), l == 'nat' and r == 'nat',
                    'operands carry tags (%s, %s); the failure test must compare natural-space values' % (l, r), m.rel, e.lineno,
                    what='failure test compares natural-space values')
+        # the failure criterion is stated in decades: |log10(extrapolated / finest)| > fail_mag, both in natural space
+        # (a difference of natural logarithms is in units of ln, 2.3 times finer than decades)
+        cmps = [n for n in own_nodes(ef) if isinstance(n, ast.Compare) and any(isinstance(c, ast.Name) and c.id == 'fail_mag' for c in [n.left] + n.comparators)]
+        live = []
+        for c in cmps:
+            # keep the comparisons reachable in this world (guards on extrap_log)
+            par, child, ok_world = getattr(c, '_parent', None), c, True
+            while par is not None and par is not ef:
+                if isinstance(par, ast.If) and ast.unparse(par.test) in ('extrap_log', 'not extrap_log'):
+                    in_body = any(child is x or any(child is y for y in ast.walk(x)) for x in par.body)
+                    want_true = (ast.unparse(par.test) == 'extrap_log') == in_body
+                    if want_true != world_log:
+                        ok_world = False
+                child, par = par, getattr(par, '_parent', None)
+            if ok_world:
+                live.append(c)
+        okc = len(live) == 1
+        det = '%d comparisons with fail_mag are reachable' % len(live)
+        if okc:
+            c = live[0]
+            lhs = c.left if not (isinstance(c.left, ast.Name) and c.left.id == 'fail_mag') else c.comparators[0]
+            inner = lhs.args[0] if isinstance(lhs, ast.Call) and (dotted(lhs.func) or '').split('.')[-1] in ('abs', 'absolute', 'fabs') and len(lhs.args) == 1 else None
+            isdec = isinstance(inner, ast.Call) and (dotted(inner.func) or '') in ('numpy.log10', 'np.log10', 'math.log10') and len(inner.args) == 1
+            arg = inner.args[0] if isdec else None
+            tags = [(l, r) for (e, l, r) in divs if e is arg]
+            okc = isdec and bool(tags) and set(tags) == {('nat', 'nat')} and isinstance(c.ops[0], (ast.Gt, ast.GtE) if lhs is c.left else (ast.Lt, ast.LtE))
+            det = 'criterion `%s`; operand tags %s' % (ast.unparse(c), tags)
+        rep.ob('R-SPACE', 'extrap_func[extrap_log=%s] failure criterion' % world_log, okc, det, m.rel, live[0].lineno if live else ef.lineno,
+               what='failure criterion is |log10(extrapolated/finest)| > fail_mag with natural-space operands (units of decades)')
     rep.floor('R-SPACE', 14, 'handler calls, returns and the failure ratio in two worlds')
 
     # ---- fallback plumbing ---------------------------------------------------------------------
